@@ -211,6 +211,10 @@ def run(repo: Repo, rep: Report, tier: str) -> None:
     except Undecided as ex:
         rep.undecide("derive_scope", str(ex))
     try:
+        _owner_option(repo, rep)
+    except Undecided as ex:
+        rep.undecide("owner_option", str(ex))
+    try:
         _override_sibling(repo, rep)
     except Undecided as ex:
         rep.undecide("override_sibling", str(ex))
@@ -367,6 +371,34 @@ def _override_sibling(repo: Repo, rep: Report) -> None:
                           "the schema describes the type chosen by another serialization override than the one the packer applies (e.g. a higher-priority deserialize-only strategy hides a lower-priority serialize)",
                           loc=repo.func(M_SCHEMA, "Instance.get_overridden_serialization_method").loc)
     rep.floor("R06.11", 4)
+
+
+def _owner_option(repo: Repo, rep: Report) -> None:
+    """R06.12: the schema reads serialization options (namedtuple_as_dict, serialize_by_alias ...) through the owner
+    builder's get_dialect_or_config_option -- the very lookup chain the packer uses (call dialect, default dialect,
+    Config.dialect, Config) -- and falls back to the given default only without an owner."""
+    from ..core.schemadisp import INSTANCE
+    from ..core.values import Func
+
+    fi = repo.func(M_SCHEMA, "Instance.get_owner_dialect_or_config_option")
+    ev = make_eval(repo, inline_depth=2)
+    ev.inline_modules = frozenset(set(ev.inline_modules) | {M_SCHEMA})
+    p = Path()
+    B = ev.builder_obj(p)
+    dummy = ast.parse("f(x)").body[0].value
+    outs = set()
+    for owner in (B, Const(None)):
+        q = p.clone()
+        inst = ev.new_obj(q, INSTANCE, {"_Instance__owner_builder": owner, "__owner_builder": owner})
+        for v, r in ev.call_func(Func(fi, self_v=inst), [Sym("option"), Sym("default")], {}, q, dummy, force=True):
+            if r.ctl != "raise":
+                outs.add(("owner" if owner is B else "no owner", show(v)))
+    want = {("owner", "B.get_dialect_or_config_option(option, default)"), ("no owner", "default")}
+    if outs == want:
+        rep.ok("R06.12", "Instance.get_owner_dialect_or_config_option delegates to the owner builder's lookup chain; `default` only without an owner", None)
+    else:
+        rep.violation("R06.12", fi.key, f"option lookup of the schema: {sorted(outs)}", "the schema must resolve an option exactly as the packer does (call dialect > default dialect > Config.dialect > Config): "
+                      "an option set through Config.dialect (namedtuple_as_dict) changes the serialized shape and must change the schema with it", loc=fi.loc)
 
 
 def _enum_literal(repo: Repo, rep: Report) -> None:
